@@ -1,6 +1,6 @@
 ------------------------------- MODULE KDFBcryptKat -------------------------------
-(* Known answers of bcrypt (module KDF), part 1 of 2: each needs 33 (cost 4) or 65 (cost 5) EksBlowfish key expansions of 521 Blowfish
-   encryptions - minutes of TLC time - so they are kept out of module KDF, and in two modules so that they run side by side.
+(* Known answers of bcrypt (module KDF), part 1 of 3: each needs 33 (cost 4) or 65 (cost 5) EksBlowfish key expansions of 521 Blowfish
+   encryptions - minutes of TLC time - so they are kept out of module KDF, and in three modules so that they run side by side.
    Values: "U*U*U" at cost 5 is a published vector of Openwall's crypt_blowfish (wrapper.c), reproduced at authoring time by libxcrypt's
    crypt(3), which also produced the others (empty password; a single 8-bit character - the historical sign-extension bug; 72 bytes - no
    terminating NUL is appended; 71 8-bit bytes including 0xFF).  crypt(3) was called under the prefix $2b$ (the plain OpenBSD algorithm)
@@ -9,5 +9,4 @@
 EXTENDS Integers, Sequences
 K == INSTANCE KDF
 ASSUME K!Bcrypt(<<85,42,85,42,85>>, 5, <<101,150,89,101,150,89,101,150,89,101,150,89,101,150,89,101>>) = <<36,50,97,36,48,53,36,88,88,88,88,88,88,88,88,88,88,88,88,88,88,88,88,88,88,88,88,88,79,65,99,88,120,109,57,107,106,80,71,69,77,115,76,122,110,111,75,113,109,113,119,55,116,99,56,87,67,120,52,97>>
-ASSUME K!Bcrypt(<<>>, 4, <<213,114,104,49,43,200,33,42,157,1,208,79,123,217,255,61>>) = <<36,50,97,36,48,52,36,122,86,72,109,75,81,116,71,71,81,111,98,46,98,47,78,99,55,108,57,78,79,56,85,108,114,89,99,87,48,53,70,105,117,67,106,47,83,120,115,70,79,47,90,116,105,78,57,46,109,78,122,121>>
 =============================================================================
